@@ -138,6 +138,25 @@ def build(unit_path, repo, canary=False):
             u.emit(LM.verus_axiom(L, spec_names=set(toks[1:])), ("spec", "lemmas/%s.lem" % toks[0]))
             u.lemmas.append(toks[0])
             i += 1
+        elif d == "@opimpl":
+            # @opimpl LHS RHS OUT METHOD SPECFN : `impl Mul<RHS> for LHS` in the four value/reference combinations,
+            # each forwarding to the extracted inherent method LHS::METHOD(&self, &RHS) whose postcondition is SPECFN(lhs, rhs, r)
+            L_, R_, O_, M_, S_ = arg.split()
+            buf = []
+            for lref in (False, True):
+                for rref in (False, True):
+                    lt = ("&'a " + L_) if lref else L_
+                    rt = ("&'b " + R_) if rref else R_
+                    gens = [g for g, on in (("'a", lref), ("'b", rref)) if on]
+                    gp = ("<" + ", ".join(gens) + ">") if gens else ""
+                    la = "*self" if lref else "self"
+                    ra = "*rhs" if rref else "rhs"
+                    buf.append("impl%s vstd::std_specs::ops::MulSpecImpl<%s> for %s {\n    open spec fn obeys_mul_spec() -> bool { false }\n    open spec fn mul_req(self, rhs: %s) -> bool { true }\n    open spec fn mul_spec(self, rhs: %s) -> %s { arbitrary() }\n}" % (gp, rt, lt, rt, rt, O_))
+                    buf.append("impl%s Mul<%s> for %s { type Output = %s;\n    fn mul(self, rhs: %s) -> (r: %s) ensures %s(%s, %s, r) { %s.%s(%s) } }" % (
+                        gp, rt, lt, O_, rt, O_, S_, la, ra, "self" if lref else "(&self)", M_, "rhs" if rref else "&rhs"))
+            u.emit("\n".join(buf), ("spec", "%s:%d (operator forwarding impls, R12)" % (os.path.basename(unit_path), i + 1)))
+            _count(u, "R12", 4)
+            i += 1
         elif d == "@rules":
             groups = arg.split(); i += 1
         elif d == "@cast":
